@@ -422,6 +422,7 @@ def main(argv=None):
     prop = args.prop.upper()
     seed = int(os.environ.get('VERIF_SEED', '1') or 1)
     t0 = time.time()
+    _cov_start()
 
     try:
         import_fxpmath()
